@@ -16,6 +16,17 @@ def replay(w):
     obs = {}
     bad = False
     sig = None
+    if ob == 'index_independent_of_earlier_sizes':
+        nt = w.get('notes') or {}
+        n1, n2 = int(nt['n1']), int(nt['n2'])
+        for r0 in range(n1):
+            for c0 in range(r0, n1):
+                uv._compressed_index(r0, c0, n1)
+        tri = [(i, j) for i in range(n2) for j in range(i, n2)]
+        bad = [(r0, c0, int(uv._compressed_index(r0, c0, n2))) for (r0, c0) in tri
+               if int(uv._compressed_index(r0, c0, n2)) != tri.index((r0, c0))]
+        return {'reproduced': bool(bad), 'signature': 'index-depends-on-earlier-sizes' if bad else None,
+                'observed': {'first_wrong': bad[:3], 'n1': n1, 'n2': n2}}
     if ob.startswith('index_'):
         n = int(p.get('n', inp.get('n', 1)))
         r, c = int(inp.get('r', 0)), int(inp.get('c', 0))
